@@ -5,8 +5,10 @@
             L l0 l1 .. l(N-1) : list i has length l_i
             E : no lists
    stdout, one line per case:
-     <id> SHAPE rows cols | <id> EXC name | <id> CRASH site idx size | <id> HANG site ; then " F7" if
-     the request lies in the F7 zone *)
+     <id> SHAPE rows cols | <id> EXC name | <id> CRASH site idx size | <id> HANG site ; then " S<mask>"
+     (src_differs_mask: which table regenerated from the source treats the request differently from the
+     model: 1 sizing/index expressions, 2 validate(), 4 eigen slices; 0 = none) ; then " F7" if the
+     request lies in the F7 zone *)
 open C01_model
 
 let rec pos_of_int n = if n = 1 then XH else if n land 1 = 1 then XI (pos_of_int (n lsr 1)) else XO (pos_of_int (n lsr 1))
@@ -50,7 +52,9 @@ let () =
             | _ -> [] in
           let perm = List.init (max n 0) (fun i -> z_of_int i) in
           let rs = List.init (max (ii 16) 0) (fun _ -> Z0) in
-          let tail = if f7_zone c then " F7" else "" in
+          let keff = (match w.(17) with "U" -> ii 18 | "L" -> (if n > 0 then ii 18 else 0) | _ -> max 0 (min (ii 9) (n - 1))) in
+          let mask = int_of_z (src_differs_mask c (z_of_int (max keff 0))) in
+          let tail = Printf.sprintf " S%d%s" mask (if f7_zone c then " F7" else "") in
           (match outcome_of v c nb perm rs with
            | OShape (r, k) -> Printf.printf "%s SHAPE %d %d%s\n" id (int_of_z r) (int_of_z k) tail
            | OExc e -> Printf.printf "%s EXC %s%s\n" id (exc_name e) tail
